@@ -33,7 +33,11 @@ TRUSTED_BASE = L.TRUSTED_COMMON + [
     'MultipleJoin accessor (Model/OrmPaths.v: compositions of read/select-ids with SQLObject.get). The foreign-key traversal is run through '
     'the real main.py _SO_foreignKey on the Int column a (what the generated getter of a ForeignKey column calls); the join through real '
     'MultipleJoin descriptors on column a. RelatedJoin/SingleJoin/SQL*Join accessors build their results with the same otherClass.get / '
-    'select iteration and are exercised by C13, not here',
+    'select iteration and are exercised by C13 and by the relation stream below',
+    'relation stream (oracle only, no Coq model): real ForeignKey (by id and by refColumn), MultipleJoin, SingleJoin and RelatedJoin '
+    'descriptors on four classes, run on the default connection, on an explicit second connection (decoy rows with the same ids in the '
+    'default one) and through a Transaction; judged by object identity against what the application holds and by "the object handed out '
+    'is bound to the connection in use"',
 ]
 PROFILE = L.profile(without=['clear', 'rawupdate', 'rawdelete'],
                     weights={'get': 16, 'select': 10, 'byalt': 6, 'drop': 10, 'cull': 5, 'expire': 2, 'expireall': 1,
@@ -409,6 +413,14 @@ def distribution(cases, obs):
             d['ops'][t] = d['ops'].get(t, 0) + 1
             if st['out'][0] == 'exc':
                 d['exceptions'][st['out'][1]] = d['exceptions'].get(st['out'][1], 0) + 1
+    rel = {'cases': 0, 'modes': {}, 'ops': {}}
+    for c, o in zip(cases, obs):
+        if c.get('rel') and 'rsteps' in o:
+            rel['cases'] += 1
+            rel['modes'][c['mode']] = rel['modes'].get(c['mode'], 0) + 1
+            for op in c['ops']:
+                rel['ops'][op[0]] = rel['ops'].get(op[0], 0) + 1
+    d['relation_stream'] = rel
     return d
 
 
